@@ -195,6 +195,9 @@ func (s *Scenario) runHistory(eng host.Engine, opts func(step int) *host.Options
 			opt = opts(i + 1)
 		}
 		h.ResetTrace()
+		if opts == nil {
+			opt = guard()
+		}
 		o := h.RunTx(eng, t.Source, nil, signersFor(t.Source), opt)
 		if visit != nil {
 			visit(i+1, h, o)
@@ -206,6 +209,9 @@ func (s *Scenario) runHistory(eng host.Engine, opts func(step int) *host.Options
 
 func (s *Scenario) runScript(eng host.Engine, i int, opt *host.Options) (Obs, *host.Host, host.Outcome) {
 	h := host.New()
+	if opt == nil {
+		opt = guard()
+	}
 	o := h.RunScript(eng, s.Scripts[i].Source, nil, opt)
 	return observe(h, o), h, o
 }
